@@ -82,7 +82,7 @@ func init() {
 	core.Register(&core.Check{
 		Spec: core.Spec{
 			Prop:        "C03",
-			Rule:        "Same scenario engine with replay emphasis (same vertex again, same transaction proposed again, same transaction re-wrapped by another sealer, duplicates in concurrent proposal blocks and concurrent deliveries). After every operation: no transaction hash in two vertices (live + checkpointed), no vertex both live and checkpointed, transaction index is a bijection onto the held transactions; at most one of several concurrent proposals of one transaction succeeds. After every scenario the peer's own stream, extended by a second validly signed vertex of another sealer that wraps a transaction already in the stream (first or last in stream order), is loaded in to a fresh node: it must not hold the transaction twice and its index must point at the holder. Non-trivial = replay attempts and concurrent duplicate blocks; distinct by (replay kind, node count, checkpoint present, block size).",
+			Rule:        "Same scenario engine with replay emphasis (same vertex again, same transaction proposed again, same transaction re-wrapped by another sealer, duplicates in concurrent proposal blocks and concurrent deliveries). After every operation: no transaction hash in two vertices (live + checkpointed), no vertex both live and checkpointed, transaction index is a bijection onto the held transactions; at most one of several concurrent proposals of one transaction succeeds. One batch truncates a 1030-vertex ledger and re-offers checkpointed vertices and transactions (same vertex, same transaction proposed again, re-wrapped by another sealer), then runs 60 hostile operations. After every scenario the peer's own stream, extended by a second validly signed vertex of another sealer that wraps a transaction already in the stream (first or last in stream order), is loaded in to a fresh node: it must not hold the transaction twice and its index must point at the holder. Non-trivial = replay attempts and concurrent duplicate blocks; distinct by (replay kind, node count, checkpoint present, block size).",
 			Assumptions: []string{ledgerAssume},
 			MinEvals:    300, MinNontriv: 10,
 		},
@@ -90,6 +90,7 @@ func init() {
 		Worker: func(w *core.WorkerCtx) {
 			runRandomScenarios(w, []string{"C03"}, w.Pick(10, 50), func(p *ledger.Profile) { p.PReplay = 0.3; p.PConcurrent = 0.12 }, c03SyncReplay)
 			c03Concurrent(w)
+			c03Truncation(w)
 		},
 	})
 	core.Register(&core.Check{
